@@ -112,6 +112,83 @@ func forwardReach(v ssa.Value) map[ssa.Value]bool {
 	return out
 }
 
+// variadicElems: the values passed in the slice literal that go/ssa builds for a variadic call.
+func variadicElems(v ssa.Value) []ssa.Value {
+	sl, ok := v.(*ssa.Slice)
+	if !ok {
+		return nil
+	}
+	al, ok := sl.X.(*ssa.Alloc)
+	if !ok {
+		return nil
+	}
+	var out []ssa.Value
+	for _, r := range *al.Referrers() {
+		if ia, ok := r.(*ssa.IndexAddr); ok {
+			for _, r2 := range *ia.Referrers() {
+				if st, ok := r2.(*ssa.Store); ok && st.Addr == ssa.Value(ia) {
+					out = append(out, st.Val)
+				}
+			}
+		}
+	}
+	return out
+}
+
+// r14DstNotDropped (F4): where the value computed under the name x is copied to the destination d and x is
+// dropped afterwards, the drop is guarded by x != d - otherwise Eval("colcol-temp-0", ...), whose destination
+// happens to be the temporary name the evaluation picked, copies the column onto itself and then drops it: no
+// error and no destination column.
+func r14DstNotDropped(c *Ctx, drop *ssa.Function) {
+	p := c.P
+	copyFn := p.Func("", "QFrame.Copy")
+	if copyFn == nil {
+		return
+	}
+	for _, fn := range p.FuncsIn("") {
+		var copies []*ssa.Call
+		eachInstr(fn, func(in ssa.Instruction) {
+			if call, ok := in.(*ssa.Call); ok && call.Call.StaticCallee() == copyFn && len(call.Call.Args) == 3 {
+				copies = append(copies, call)
+			}
+		})
+		if len(copies) == 0 {
+			continue
+		}
+		eachInstr(fn, func(in ssa.Instruction) {
+			call, ok := in.(*ssa.Call)
+			if !ok || call.Call.StaticCallee() != drop || len(call.Call.Args) != 2 {
+				return
+			}
+			for _, x := range variadicElems(call.Call.Args[1]) {
+				for _, cp := range copies {
+					d, src := cp.Call.Args[1], cp.Call.Args[2]
+					if stripConv(src) != stripConv(x) || !cp.Block().Dominates(call.Block()) {
+						continue
+					}
+					key := fname(fn) + "|destination not dropped"
+					guarded := false
+					for _, g := range dominatingGuards(call.Block()) {
+						cmp, ok := g.Cond.(*ssa.BinOp)
+						if !ok || !(cmp.Op == token.NEQ && g.Val || cmp.Op == token.EQL && !g.Val) {
+							continue
+						}
+						a, b := stripConv(cmp.X), stripConv(cmp.Y)
+						if a == stripConv(x) && b == stripConv(d) || b == stripConv(x) && a == stripConv(d) {
+							guarded = true
+						}
+					}
+					if guarded {
+						c.ok(key, p.instrPos(call), "the evaluated column is dropped only when its name differs from the destination")
+					} else {
+						c.bad(key, p.instrPos(call), "the column is copied to the destination and then dropped by its own name without a test that the two names differ: when the destination equals the (temporary) name of the evaluated column the result is dropped and the destination column never appears, without an error")
+					}
+				}
+			}
+		})
+	}
+}
+
 func runR14(c *Ctx) {
 	p := c.P
 	drop := p.Func("", "QFrame.Drop")
@@ -120,6 +197,7 @@ func runR14(c *Ctx) {
 		c.undecided("anchor|Drop/Contains", "-", "QFrame.Drop or QFrame.Contains not found")
 		return
 	}
+	r14DstNotDropped(c, drop)
 	for _, fn := range p.FuncsIn("") {
 		// the function's own frame parameter
 		var frame *ssa.Parameter
